@@ -893,7 +893,8 @@ def design_level(pid, tier, wd, stats):
 # (deviation, DEVIATIONS, liveness?, extra constants): repaired deviations stay here - they keep the invariants honest
 VACUITY = {
     "C05": [("S12", '{"S12"}', False, {}), ("S14", '{"S14"}', False, {}), ("S15", '{"S15"}', False, {}),
-            ("S15p", '{"S15p"}', False, {}), ("S21", '{"S21"}', False, {})],
+            ("S15p", '{"S15p"}', False, {"Towers": '{"t1", "t2"}', "MaxConc": 1}),
+            ("S21", '{"S21"}', False, {"Towers": '{"t1", "t2"}', "MaxConc": 1})],
     "C13": [("S13", '{"S13"}', False, {}), ("S14", '{"S14"}', True, {}), ("S19", '{"S19"}', True, {}),
             # the user's registertower calls are part of the environment here; no renewals by the retrier (two renewals
             # in flight at once are the tower's problem: the second receipt does not extend the first)
